@@ -327,13 +327,14 @@ func VH_C04_InvPreserved() {
 			preID[s] = p.ID
 		}
 	}
+	var opErr error
 	switch op {
 	case 0:
-		sm.AssignSeats(map[string]int{idA: seatA, idB: seatB})
+		opErr = sm.AssignSeats(map[string]int{idA: seatA, idB: seatB})
 	case 1:
-		sm.RandomAssignSeats([]string{idA, idB})
+		opErr = sm.RandomAssignSeats([]string{idA, idB})
 	case 2:
-		sm.RemoveSeats([]string{idA, idB})
+		opErr = sm.RemoveSeats([]string{idA, idB})
 	case 3:
 		sm.JoinPlayers([]string{idA, idB})
 	case 4:
@@ -342,6 +343,44 @@ func VH_C04_InvPreserved() {
 		sm.InitPositions(verifrt.Bool("random"))
 	case 6:
 		sm.RotatePositions()
+	}
+	if op <= 2 {
+		// membership effect and frame: who was seated and is not named by a removal keeps his
+		// seat; an accepted assignment seats every named player on exactly one seat (the one
+		// named, for fixed seats); an accepted removal unseats exactly the named players;
+		// a refused operation changes no seat
+		seatOf := func(id string) int {
+			at := -1
+			for s := 0; s < M; s++ {
+				if p := sm.SeatData[s]; p != nil && p.ID == id {
+					at = s
+				}
+			}
+			return at
+		}
+		for s := 0; s < M; s++ {
+			if !pre0[s].occ {
+				continue
+			}
+			named := preID[s] == idA || preID[s] == idB
+			if opErr != nil || op != 2 || !named {
+				verifrt.Assert(sm.SeatData[s] != nil && sm.SeatData[s].ID == preID[s], "a seated player not named by an accepted removal keeps his seat")
+			} else {
+				verifrt.Assert(sm.SeatData[s] == nil, "an accepted removal frees the seats of the named players")
+			}
+		}
+		if opErr == nil && op != 2 {
+			verifrt.Assert(seatOf(idA) >= 0 && seatOf(idB) >= 0, "an accepted assignment seats every named player")
+			if op == 0 {
+				// (the same id given twice is one map entry: the later seat counts)
+				verifrt.Assert(seatOf(idB) == seatB && (idA == idB || seatOf(idA) == seatA), "an accepted fixed assignment uses the seats named")
+			}
+		}
+		if opErr != nil {
+			for s := 0; s < M; s++ {
+				verifrt.Assert((sm.SeatData[s] != nil) == pre0[s].occ, "a refused membership operation changes no seat")
+			}
+		}
 	}
 	if op <= 4 {
 		// the button and the blinds move only when positions are computed for a hand: seating,
